@@ -681,6 +681,9 @@ class SharesManager(BaseManager):
 
         # First round using the term map
         include_terms = []
+        # For each wildcard term: all terms from the term map ending with the
+        # wildcard term. An item should contain at least one of those terms
+        wildcard_term_groups: list[list[str]] = []
         for term in search_query.include_terms:
             subterms = re.split(_QUERY_CLEAN_PATTERN, term)
             for subterm in subterms:
@@ -707,16 +710,26 @@ class SharesManager(BaseManager):
                     if not matching_terms:  # Optimization
                         return [], []
 
-                    include_terms.extend(matching_terms)
+                    wildcard_term_groups.append(matching_terms)
                 else:
                     if subterm not in self._term_map:  # Optimization
                         return [], []
 
                     include_terms.append(subterm)
 
-        found_items = set(self._term_map[include_terms[0]])
-        for include_term in include_terms:
-            found_items &= set(self._term_map[include_term])
+        term_item_sets: list[set[SharedItem]] = [
+            set(self._term_map[include_term])
+            for include_term in include_terms
+        ]
+        for matching_terms in wildcard_term_groups:
+            wildcard_items: set[SharedItem] = set()
+            for matching_term in matching_terms:
+                wildcard_items |= set(self._term_map[matching_term])
+            term_item_sets.append(wildcard_items)
+
+        found_items = term_item_sets[0]
+        for term_item_set in term_item_sets[1:]:
+            found_items &= term_item_set
 
         # Regular expressions on the remaining items
 
